@@ -195,3 +195,28 @@ def prove_c09_bounds(tier, seed):
         res.append(Res(qn, "post", "operation-tree", P, "undecided", backend="normal-form",
                        reason=f"statement outside the whole-array algebra: {ex}"))
     return res
+
+
+# ====================================================================== storage type chosen by qap.Instance.__init__ (C09)
+# Hoare triple on the single statement `dtype = int_range_to_dtype(...)`: whatever the bounds are, the chosen type holds
+# every entry of both matrices, so `distances.astype(dtype)` / `flows.astype(dtype)` store the given numbers (F12).
+from pyvc.spec import DTYPE, OBJ, PYINT  # noqa: E402
+
+_irtd_q = contract("<opaque>:int_range_to_dtype", params={"min_value": PYINT, "max_value": PYINT}, returns=DTYPE,
+                   ensures=["result[0] <= min_value and result[1] >= max_value"],
+                   assumptions=["E1: moptipy int_range_to_dtype(min_value, max_value) returns an integer dtype containing the range"])
+contract(
+    "moptipy" "apps.qap.instance:Instance.__init__#dtype",
+    props="C09",
+    block=("assign dtype #0", "assign dtype #0"),
+    params={"distances": A2("DD"), "flows": A2("FF"), "ub": PYINT},
+    i64=False,
+    requires=["shape(distances, 0) >= 1 and shape(distances, 1) == shape(distances, 0)",
+              "shape(flows, 0) == shape(distances, 0) and shape(flows, 1) == shape(distances, 0)",
+              "forall(a, 0, shape(flows, 0), forall(b, 0, shape(flows, 0), flows[a, b] >= 0 and distances[a, b] >= 0))"],
+    opaque={"int_range_to_dtype": _irtd_q},
+    ensures=[tag("C09", "chosen-type-holds-every-entry-of-both-matrices",
+                 "forall(a, 0, shape(flows, 0), forall(b, 0, shape(flows, 0), "
+                 "dtype[0] <= flows[a, b] and flows[a, b] <= dtype[1] and dtype[0] <= distances[a, b] and distances[a, b] <= dtype[1]))"),
+             tag("C09", "chosen-type-holds-the-upper-bound", "dtype[1] >= ub")],
+)
